@@ -147,7 +147,7 @@ FAMILIES = {
     "classes": dict(
         consts=dict(Raises="NoRaises", Kinds="FL_Kinds", Paths="FL_Paths", Consts="FL_Consts", Tmpls="None0",
                     Fns="None0", Bodies="FL_Bodies", DispVals="NoSeq", Preds="None0", Presets="None0",
-                    MapPaths="None0", Leaves="FL_Leaves", CollKinds="DictOnly"),
+                    MapPaths="None0", Leaves="FL_Leaves", CollKinds="DictIter"),
         sharing=False,
         runs={"quick": [dict(mode="bfs", max_nodes=4)], "thorough": [dict(mode="bfs", max_nodes=5)]},
         shards=[["coll"]], shard_defs={"coll": "SK_coll"}),
